@@ -364,7 +364,7 @@ def _run(ctx, rng, wd):
     # ---- stage 3: judge
     for case, res in zip(cases, results):
         kind = case.get("kind", "file")
-        ctx.evaluated()
+        ctx.evaluated(max(1, len(res["runs"])))      # one evaluation per file run through `whatshap unphase`
         ctx.dist("kind", kind)
         n0 = len(ctx.fails)
         if kind == "history":
